@@ -344,6 +344,25 @@ def run(ctx):
         # distinctness is per configuration
         for c in cases:
             ctx.nontrivial.add((name, c[:160]))
+    # single update() calls with very large slices (the model costs ~130 us per byte, so these are decided on the implementation
+    # alone: the count must be 0 and a length must be reported)
+    hbd = ctx.harness("default")
+    if hbd is not None:
+        import srcdict
+        sizes = [2 ** 27 + 5] if ctx.tier == "quick" else [2 ** 27 + 5, 2 ** 30 + 1, 2 ** 32 + 100]
+        for n in srcdict.new_literals()["ints"] + srcdict.products(srcdict.new_literals()["ints"]):
+            if 2 ** 20 <= n <= 2 ** 31:
+                sizes += [n - 1, n, n + 5]
+        huge = ["na hist %s uzero %d l" % (VNAMES[k % len(VNAMES)], n) for k, n in enumerate(sorted(set(sizes))[:12])]
+
+        def huge_pred(c, i):
+            head = i.split(" | ", 1)[0]
+            if not head.isdigit():
+                return "a single large update did not return normally: `%s`" % i[:80]
+            if int(head) > 0:
+                return "%s heap allocation(s) inside update() on one slice of %s bytes" % (head, c.split(" ")[4])
+            return None
+        ctx.impl_only("NOALLOC-HUGE", huge, hbd, huge_pred, nontrivial=lambda c, i: True)
     build_suite(ctx, extra_sets)
     return finish(ctx)
 
